@@ -17,6 +17,12 @@ import tempfile
 
 
 def run():
+    # the host application's own standard-library settings: a decimal context with 5 digits and another rounding mode (money, sensor read-outs);
+    # a library that starts to route its numbers through `decimal` silently inherits them
+    import decimal
+    ctx = decimal.getcontext()
+    ctx.prec = 5
+    ctx.rounding = decimal.ROUND_UP
     from praatio import audio, textgrid as tgmod, praatio_scripts
     from praatio import pitch_and_intensity as pi
     from praatio.utilities import constants, utils, my_math
